@@ -10,6 +10,7 @@ clause -> observable -> oracle
 Not covered: slices (C02), broadcast=True indexing, N-d boolean masks (C03/C17), duplicate labels.
 """
 import itertools
+import numpy as np
 from mc import common, domains as D, ref as R, spell
 from mc.engine import ok, bad, unspecified
 from mc.common import call, Raised, DimArray
@@ -185,6 +186,28 @@ def _tol_cases(v, tier):
                 for q in qs:
                     yield {"a": s, "ix": [["s", q]], "sp": "nloc", "mode": "label", "tol": tol}
                     yield {"a": s, "ix": [["l", [q, q]]], "sp": "nloc", "mode": "label", "tol": tol}
+        if kind in "if":
+            # boundary queries under a tolerance: nothing selected (empty list / array), a NaN query (within no tolerance of any label),
+            # an axis without labels (nothing is within tol: IndexError like any absent label)
+            nanq = float("nan")
+            for var in ("fresh", s.get("var", "fresh")):
+                for e, labs in ((dict(s, var=var), lab), (D.spec(["x"], [[]], [kind], var=var), [])):
+                    for tol in (tols[kind][1], float("inf")):
+                        for sp in ["take", "dictn", "axisn", "loc"]:
+                            yield {"a": e, "ix": [["s", nanq]], "sp": sp, "mode": "label", "tol": tol}
+                            yield {"a": e, "ix": [["l", []]], "sp": sp, "mode": "label", "tol": tol}
+                            yield {"a": e, "ix": [["s", lab[0]]], "sp": sp, "mode": "label", "tol": tol}
+                        yield {"a": e, "ix": [["nd", []]], "sp": "dictn", "mode": "label", "tol": tol}
+                        yield {"a": e, "ix": [["l", [lab[0], nanq]]], "sp": "take", "mode": "label", "tol": tol}
+                        yield {"a": e, "ix": [["nd", [nanq]]], "sp": "take", "mode": "label", "tol": tol}
+        if v[0] == ("i", "inc"):
+            # narrow integer labels: the distance |label - query| does not fit the label dtype
+            for ldt, labs, q, tol in (("int8", [-100, 60], 120, 40), ("int8", [-100, 60], 120, 70), ("int32", [-2000000000, 1500000000], 2000000000, 600000000),
+                                      ("int32", [-2000000000, 1500000000], 2000000000, 300000000), ("int16", [-30000, 100, 20000], 30000, 5000)):
+                e = dict(D.spec(["x"], [labs], ["i"]), ldt=[ldt])
+                for sp in ["take", "dictn", "loc"]:
+                    yield {"a": e, "ix": [["s", q]], "sp": sp, "mode": "label", "tol": tol}
+                yield {"a": e, "ix": [["l", [q, labs[0]]]], "sp": "take", "mode": "label", "tol": tol}
         return
     qss = []
     for i in range(nd):
@@ -230,6 +253,19 @@ def check(case):
     return r
 
 
+def _presnap(pre):
+    """snapshot of the index objects (keys of mappings included: a {position: index} mapping must still have its integer keys afterwards)"""
+    def one(o):
+        if isinstance(o, dict):
+            return ("dict",) + tuple((repr(k), one(v)) for k, v in o.items())
+        if isinstance(o, (tuple, list)):
+            return (type(o).__name__,) + tuple(one(x) for x in o)
+        if isinstance(o, np.ndarray):
+            return ("nd", str(o.dtype), o.shape, repr(o.tolist()))
+        return repr(o)
+    return tuple((k, one(v)) for k, v in sorted(pre.items()))
+
+
 def _judge(a, ra, case, first):
     s = case["a"]
     before = common.snap(a)
@@ -248,10 +284,13 @@ def _judge(a, ra, case, first):
     except R.Unspecified:
         call(spell.get, a, case["ix"], case["sp"], s["kinds"], mode=case["mode"], **kw)
         return unspecified()
-    pre = {}
+    pre = spell.make_pre(case["ix"], s["kinds"], list(ra.dims), case["mode"]) if first else {}
+    pre_before = _presnap(pre)
     got = call(spell.get, a, case["ix"], case["sp"], s["kinds"], mode=case["mode"], pre=pre, **kw)
     if common.snap(a) != before:
         return bad("operand modified by an indexing read")
+    if first and _presnap(pre) != pre_before:
+        return bad("the read modified the index object it was given: {} -> {}".format(pre_before, _presnap(pre)))
     if first:
         # the caller re-uses its index objects (same tuple / lists / {dim: index} mapping) for a second read: same answer
         again = call(spell.get, a, case["ix"], case["sp"], s["kinds"], mode=case["mode"], pre=pre, **kw)
